@@ -13,6 +13,12 @@ class Func:
         self.inst = rec.get("inst", rec["name"])
         self.loc = rec["loc"]
         self.blocks = {b["id"]: b for b in rec["blocks"]}
+        for b in rec["blocks"]:
+            c = b.get("cond")
+            if c is not None and "erefs" in c and "allrefs" not in c:
+                # short-circuit condition: this block is decided by its right-most operand
+                c["allrefs"], c["allcalls"] = c["refs"], c["calls"]
+                c["refs"], c["calls"] = c["erefs"], c["ecalls"]
         self.entry = rec.get("entry")
         self.exit = rec.get("exit")
         self._preds = None
@@ -278,3 +284,42 @@ def path_fields(p):
     if not p:
         return []
     return [x[2:] for x in p["chain"] if x.startswith("f:") or x.startswith("m:")]
+
+
+class UnknownAtom(Exception):
+    pass
+
+
+def follow(f, start_block, truth, targets, limit=200):
+    """Deterministically walk the CFG from start_block, deciding every two-way
+    branch with truth(cond) -> True/False for the *core* condition (after
+    stripping negations); returns the first block of `targets` reached, or
+    None when the exit is reached.  Raises UnknownAtom when a branch cannot be
+    decided."""
+    b = start_block
+    for _ in range(limit):
+        if b in targets:
+            return b
+        if b == f.exit:
+            return None
+        blk = f.blocks[b]
+        succ = blk["succ"]
+        live = [s for s in succ if s is not None]
+        if len(live) == 0:
+            return None
+        if len(live) == 1:
+            b = live[0]       # unconditional, or the other edge is constant-false
+            continue
+        c = blk.get("cond")
+        if c is None or len(succ) != 2:
+            raise UnknownAtom("multi-way branch without condition at %s" % blk.get("tloc"))
+        t = truth(c)
+        if t is None:
+            raise UnknownAtom("condition `%s` at %s" % (c.get("t"), blk.get("tloc")))
+        if c.get("neg"):
+            t = not t
+        nxt = succ[0] if t else succ[1]
+        if nxt is None:
+            raise UnknownAtom("branch into a pruned edge at %s" % blk.get("tloc"))
+        b = nxt
+    raise UnknownAtom("walk did not terminate")
